@@ -40,6 +40,7 @@ func (s scope) lookup(k string) data.Value {
 			return val
 		}
 	}
+	notifyUnbound(k)
 	return data.Undefined{}
 }
 
